@@ -7,6 +7,7 @@ import (
 	"fmt"
 	"go/ast"
 	"go/token"
+	"sort"
 	"strings"
 )
 
@@ -86,7 +87,7 @@ func (cf *cloneFn) priorDataClone(name string, pos token.Pos) bool {
 		if !ok || as.Pos() >= pos || len(as.Lhs) != 1 || len(as.Rhs) != 1 {
 			return true
 		}
-		if se, ok := as.Lhs[0].(*ast.SelectorExpr); ok && se.Sel.Name == "data" {
+		if se, ok := as.Lhs[0].(*ast.SelectorExpr); ok && se.Sel.Name == cacheDataField {
 			if id, ok := se.X.(*ast.Ident); ok && id.Name == name && isCloneCall(as.Rhs[0]) {
 				found = true
 			}
@@ -152,7 +153,7 @@ func (cf *cloneFn) classify(e ast.Expr, role string) (kind string, cloned bool, 
 			}
 			return "value", false, "cacheToCache", false
 		}
-		if t, ok := cf.params[x.Name]; ok && (t == "Value" || t == "valueNode") {
+		if t, ok := cf.params[x.Name]; ok && (t == "Value" || t == cacheValueType) {
 			return "value", false, "notCloned", true
 		}
 		return "unknown", false, "unknown", true
@@ -168,13 +169,13 @@ func (cf *cloneFn) classify(e ast.Expr, role string) (kind string, cloned bool, 
 		}
 		return "unknown", false, "unknown", true
 	case *ast.CompositeLit:
-		if id, ok := x.Type.(*ast.Ident); ok && id.Name == "valueNode" {
+		if id, ok := x.Type.(*ast.Ident); ok && id.Name == cacheValueType {
 			for _, el := range x.Elts {
 				kv, ok := el.(*ast.KeyValueExpr)
 				if !ok {
 					return "unknown", false, "unknown", true
 				}
-				if k, ok := kv.Key.(*ast.Ident); ok && k.Name == "data" {
+				if k, ok := kv.Key.(*ast.Ident); ok && k.Name == cacheDataField {
 					if isCloneCall(kv.Value) {
 						return "value", true, "literalClone", true
 					}
@@ -192,7 +193,32 @@ func (cf *cloneFn) classify(e ast.Expr, role string) (kind string, cloned bool, 
 	return "unknown", false, "unknown", true
 }
 
+// the cached-value struct and its client-value field, found by structure: the struct type with a field of type Value
+var cacheValueType, cacheDataField = "valueNode", "data"
+
+func findCacheValueStruct(scp *pkgSrc) {
+	for _, fn := range scp.names {
+		for _, d := range scp.files[fn].Decls {
+			gd, ok := d.(*ast.GenDecl)
+			if !ok || gd.Tok != token.TYPE {
+				continue
+			}
+			for _, sp := range gd.Specs {
+				ts := sp.(*ast.TypeSpec)
+				if st, ok := ts.Type.(*ast.StructType); ok {
+					for _, fl := range st.Fields.List {
+						if id, ok := fl.Type.(*ast.Ident); ok && id.Name == "Value" && len(fl.Names) == 1 {
+							cacheValueType, cacheDataField = ts.Name.Name, fl.Names[0].Name
+						}
+					}
+				}
+			}
+		}
+	}
+}
+
 func genCloneFacts(scp *pkgSrc) string {
+	findCacheValueStruct(scp)
 	var sites []cloneSite
 	for _, fn := range scp.names {
 		for _, d := range scp.files[fn].Decls {
@@ -223,7 +249,7 @@ func genCloneFacts(scp *pkgSrc) string {
 			emit := func(n ast.Node, role, target string, val ast.Expr) {
 				ord++
 				s := cloneSite{file: fn, fn: fname, ordinal: ord, line: scp.line(n), role: role, target: target, expr: scp.text(val)}
-				s.id = fmt.Sprintf("%s:%s:%d", fn, fname, ord)
+				s.id = fmt.Sprintf("%s:%d", fname, ord) // independent of the file the method stands in
 				s.valueKind, s.cloned, s.how, s.crossing = cf.classify(val, role)
 				if role == "reset" && s.valueKind != "emptyMap" {
 					s.valueKind, s.cloned, s.how, s.crossing = "unknown", false, "unknown", true
@@ -271,6 +297,12 @@ func genCloneFacts(scp *pkgSrc) string {
 			})
 		}
 	}
+	sort.SliceStable(sites, func(i, j int) bool {
+		if sites[i].fn != sites[j].fn {
+			return sites[i].fn < sites[j].fn
+		}
+		return sites[i].ordinal < sites[j].ordinal
+	})
 	var sb strings.Builder
 	sb.WriteString(genHeader)
 	sb.WriteString(`namespace Verif.Gen.CloneFacts
@@ -286,7 +318,7 @@ inductive How
   | cacheToCache | notCloned | unknown
   deriving DecidableEq, Repr
 
-/-- one store / forward / reset / return site of core/statecache; identity = file:Type.method:ordinal -/
+/-- one store / forward / reset / return site of core/statecache; identity = Type.method:ordinal -/
 structure Site where
   id : String
   file : String
